@@ -25,7 +25,20 @@ def scan_prop(pid, setn, extra_lib):
     }
 
 
+def ev_prop(pid):
+    return {
+        'lib': LIB + ['Spec/Event', 'Check/Ev'],
+        'syn': ['Props/%s' % pid], 'needs_syn': ['Syn/Ev', 'Check/Ev'],
+        'ext': ['Props/%s_ext' % pid], 'needs_ext': ['ExtI/Ev', 'Check/Ev'],
+        'corr': ['Corr/Ev'], 'needs_corr': ['Syn/Ev', 'ExtI/Ev'],
+        'cex_ext': 'Cex/%s_ext' % pid, 'cex_syn': 'Cex/%s_syn' % pid,
+        'replay_kind': 'evstep',
+    }
+
+
 PROPS = {
+    'C04': ev_prop('C04'),
+    'C14': ev_prop('C14'),
     'C19': {
         'lib': LIB + ['Check/Scan', 'Check/C19'],
         'syn': ['Props/C19_set1', 'Props/C19_set2'], 'needs_syn': ['Syn/Set1', 'Syn/Set2', 'Check/C19'],
